@@ -750,6 +750,13 @@ func main() {
 		ev.Parallel(len(shapes), 16, func(i int) { checkShape3(r, shapes[i], n) })
 		r.Sample(sdfCase{shapes[len(shapes)/2].Name, []float64{0.1, 0.2, 0.3}, "SDF/PointSDF/NormalSDF"})
 	})
+	// the same alphabet at millimetre and kilometre scale (exact power-of-two images): absolute thresholds
+	r.Isolate("primitives3-scaled", func() {
+		for _, k := range []float64{1.0 / 1024, 1024} {
+			sc := ref.Shapes3Scaled(false, k)
+			ev.Parallel(len(sc), 16, func(i int) { checkShape3(r, sc[i], (n+1)/2) })
+		}
+	})
 	r.Isolate("primitives2", func() {
 		s2 := ref.Shapes2()
 		ev.Parallel(len(s2), 16, func(i int) { checkShape2(r, s2[i], 2*n) })
